@@ -272,7 +272,8 @@ Dist genDist(vf::Ctx& c) {
       vector<double> vals(K), w = genWeights(c, K); double s = 0;
       for (size_t i = 0; i < K; ++i) { vals[i] = static_cast<double>(i) * 0.5 - 1; s += w[i]; }
       for (auto& x : w) x /= s;
-      o << "Simple(values -1,-0.5,.. probs " << showV(w) << ")"; r.d.reset(new SimpleDiscreteDistribution(vals, w)); r.hasC = false; r.nontrivial = hasZero(w);
+      o << "Simple(fixed, values -1,-0.5,.. probs " << showV(w) << ")"; r.d.reset(new SimpleDiscreteDistribution(vals, w, NumConstants::TINY(), true)); r.hasC = false;  // fixed: no theta parameters (their constraints are the matter of C09)
+      r.nontrivial = hasZero(w);
       break; }
   }
   r.text = o.str();
@@ -354,7 +355,7 @@ vector<uint64_t> runScript(vf::Ctx& c, const vector<Op>& ops, uint32_t seed) {
 }
 }  // namespace
 
-LAW(R1_reproducible, RC, 3000, 60000, 420, "script of >= 5 calls with >= 2 continuous draws (sequences under different seeds are then compared)") {
+LAW(R1_reproducible, RC, 6000, 120000, 420, "script of >= 5 calls with >= 2 continuous draws (sequences under different seeds are then compared)") {
   uint32_t seed = genSeed(c), other = seed + 1 + static_cast<uint32_t>(c.below(1000));
   if (c.oneIn(4)) other = seed ^ (1u << c.below(32));
   int nops = c.irange(1, 16); vector<Op> ops; int ncont = 0;
@@ -518,7 +519,7 @@ bool allFrom(const vector<int>& out, size_t n) { for (int x : out) if (x < 100 |
 bool distinct(vector<int> out) { sort(out.begin(), out.end()); return adjacent_find(out.begin(), out.end()) == out.end(); }
 }  // namespace
 
-LAW(P_structure, RC, 30000, 1500000, 48, "empty source, sample size >= source size, or a zero weight") {
+LAW(P_structure, RC, 60000, 1500000, 48, "empty source, sample size >= source size, or a zero weight") {
   uint32_t seed = genSeed(c); int kind = static_cast<int>(c.below(12));
   size_t n = static_cast<size_t>(c.irange(0, 12)), k = static_cast<size_t>(c.irange(0, 14)); bool repl = c.flag();
   RT::setSeed(seed);
@@ -699,7 +700,7 @@ LAW(T_margins_enum, ENUM, 8, 8, 0, "a zero margin, or one row and one column hol
   rcontCase(c, rows, cols, seed, 3);
 }
 
-LAW(T_margins, RC, 6000, 300000, 48, "a zero margin, a dominant cell, or more than 3 rows or columns") {
+LAW(T_margins, RC, 20000, 400000, 48, "a zero margin, a dominant cell, or more than 3 rows or columns") {
   uint32_t seed = genSeed(c); size_t nr = static_cast<size_t>(c.irange(2, 5)), nc = static_cast<size_t>(c.irange(2, 5));
   vector<size_t> rows(nr, 0), cols(nc, 0); int style = static_cast<int>(c.weighted({4, 2, 2, 1}));
   if (style == 0 || style == 2) {  // margins of a random table (style 2: one dominant cell)
@@ -743,7 +744,7 @@ LAW(T_hyper2x2, RC, 12, 60, 8, "margins not all equal") {
   Gof g = gof(cnt, pr); CHECK_GOF(c, g, "top-left cell of rcont2 on rows " << showZ(rows) << " cols " << showZ(cols) << " vs hypergeometric law");
 }
 
-LAW(T_test, RC, 4000, 200000, 40, "a zero margin (must raise), or the permutation variant") {
+LAW(T_test, RC, 12000, 240000, 40, "a zero margin (must raise), or the permutation variant") {
   uint32_t seed = genSeed(c); size_t nr = static_cast<size_t>(c.irange(2, 5)), nc = static_cast<size_t>(c.irange(2, 5)); unsigned nperm = c.flag() ? 50 : 0;
   vector<vector<size_t>> tab(nr, vector<size_t>(nc)); vector<size_t> rows(nr, 0), cols(nc, 0); size_t cap = 200 / (nr * nc);
   bool sparse = c.oneIn(3);
